@@ -50,7 +50,11 @@ def convert(trace):
                 if i < len(trace) and trace[i][0] == 'read':
                     rr = trace[i][2]
                     i += 1
-                    out.append(('readtext:' + tok_s(args[0]), tok_s(rr[1]) if rr[0] == 'ok' else _ans_err(rr)))
+                    if rr[0] == 'ok' and not isinstance(rr[1], str):
+                        # the file was read in some other way than as text (binary mode, partial read): not the modelled operation
+                        out.append(('!unmodelled:binary-read:' + tok_s(args[0]), None))
+                    else:
+                        out.append(('readtext:' + tok_s(args[0]), tok_s(rr[1]) if rr[0] == 'ok' else _ans_err(rr)))
                 else:
                     out.append(('readtext:' + tok_s(args[0]), None))
         elif name == 'makedirs':
@@ -59,7 +63,7 @@ def convert(trace):
             if args[1] & os.O_EXCL:
                 out.append(('openexcl:' + tok_s(args[0]), 'u' if ok else _ans_err(r)))
             else:
-                out.append(('?open:' + tok_s(args[0]), None))
+                out.append(('!unmodelled:open:' + tok_s(args[0]), None))
         elif name == 'write':
             out.append(('write:' + tok_s(bytes.fromhex(args[0]['__b'])), 'u' if ok else _ans_err(r)))
         elif name == 'close':
@@ -81,7 +85,7 @@ def convert(trace):
         elif name == 'isatty':
             out.append(('isatty', tok_b(val)))
         else:
-            out.append(('?' + name, None))
+            out.append(('!unmodelled:' + name, None))
     return out
 
 
@@ -307,6 +311,16 @@ def check_runs(run, section, items, strict=True):
         if obs.get('crashed') or obs.get('looping') or obs.get('timeout'):
             continue
         conv = convert(obs['trace'])
+        alien = [o for o, a in conv if o.startswith('!unmodelled')]
+        if alien:
+            run.count(section)
+            run.count(section, 1, 'disagreements')
+            nal = run.sections.setdefault(section, {}).get('alien_reported', 0)
+            if nal < 3:
+                run.sections[section]['alien_reported'] = nal + 1
+                run.fail('tie', 'trace-level disagreement: the implementation issued an operation the model does not have: %s' % alien[0][:80],
+                         {'scenario': scn, 'step': step, 'operation': alien[0]}, section=section)
+            continue
         if any(a is None for _, a in conv):
             run.count(section, 1, 'unconvertible')
             continue
